@@ -332,6 +332,7 @@ pub fn run(ctx: &mut Ctx) -> Result<(), Violation> {
     let wc = ctx.tier.cases(6_000, 200_000);
     crate::wide::stage_quant(ctx, "wide-functions-and-long-lists", wc)?;
     crate::wide::stage_collisions(ctx, "operands-with-equal-hash-sub-diagrams", "quant")?;
+    crate::wide::fuzz_kind(ctx, "quant", replay)?;
     let wc = ctx.tier.cases(1_200, 60_000);
     crate::widetext::stage_padded(ctx, "quantifiers-on-variables-beyond-64-128-256-names", wc, true)?;
     Ok(())
